@@ -37,7 +37,7 @@ def enumerate_cases(tier, scope):
         for vt in (None, 'int'):
             for req in (True, False):
                 shapes.append(dict(required=req, dynamic=dyn, valid_type=vt, validator=None, populate_defaults=True))
-    ports = [pm.port(required=True, valid_type='int'), pm.port(required=False, valid_type='str', validator='short'), pm.port(required=True, valid_type=None, validator='nonneg'), pm.port(required=True, valid_type=None, validator='neg_empty')]
+    ports = [pm.port(required=True, valid_type='int'), pm.port(required=False, valid_type='str', validator='short'), pm.port(required=True, valid_type=None, validator='nonneg'), pm.port(required=True, valid_type=None, validator='neg_empty'), pm.port(required=False, valid_type='int', validator='typed_nonneg')]
     paths = ['a', 'x', 'sub.q', 'sub.new', 'sub.deep.er', 'new.ns.leaf']
     for top in shapes:
         for sub in shapes:
@@ -73,6 +73,10 @@ def enumerate_cases(tier, scope):
                     yield {'spec': tree, 'redeclare': [[path, second]], 'emissions': [['.'.join(path) + '.x', value]], 'ret': 0}
                 yield {'spec': tree, 'redeclare': [[path, second]], 'emissions': [['.'.join(path), {'x': 1}]], 'ret': 0}
                 yield {'spec': tree, 'redeclare': [[path, second]], 'emissions': [], 'ret': 0}
+    # a spec class with its own output port class (ProcessSpec.OUTPUT_PORT_TYPE) that refuses None
+    strict_tree = pm.ns({'a': pm.port(required=False), 'b': pm.port(required=True, valid_type='int'), 'sub': pm.ns({'q': pm.port(required=False)}, dynamic=True)}, dynamic=True)
+    for emissions in ([['a', None], ['b', 1]], [['b', 1], ['sub.q', None]], [['b', 1], ['sub', {'q': None}]], [['b', 1], ['a', 0]], [['b', 1], ['dyn', None]], [['b', 1], ['sub.dyn', None]], [['b', None]]):
+        yield {'spec': strict_tree, 'emissions': emissions, 'ret': 0, 'strict_ports': True}
     # output namespaces declared with a nested name through create_port_namespace(): the options belong to the
     # terminal namespace, parents that did not exist take the defaults
     for sub in shapes:
@@ -93,11 +97,14 @@ def enumerate_cases(tier, scope):
 
 @st.composite
 def _port(draw):
-    return pm.port(
+    port = pm.port(
         required=draw(st.booleans()),
         valid_type=draw(st.sampled_from([None, None, 'int', 'str', 'num'])),
         validator=draw(st.sampled_from([None, None, 'nonneg', 'short', 'never', 'neg_empty', 'legacy_nonneg'])),
     )
+    if port['valid_type'] in ('int', 'num') and draw(st.integers(0, 3)) == 0:
+        port['validator'] = 'typed_nonneg'  # a validator that relies on the declared type
+    return port
 
 
 @st.composite
@@ -186,6 +193,8 @@ def _cases(draw, tier):
         case['redeclare'] = [[path, dict(required=draw(st.booleans()), dynamic=draw(st.booleans()), valid_type=draw(st.sampled_from([None, 'int', 'str'])), validator=None, populate_defaults=True)]]
     if draw(st.integers(0, 3)) == 0:
         case['sep'] = draw(st.sampled_from(SEPARATORS))
+    elif draw(st.integers(0, 4)) == 0:
+        case['strict_ports'] = True
     if emissions and draw(st.integers(0, 3)) == 0:
         n_fin = draw(st.integers(0, min(2, len(emissions))))
         n_exit = draw(st.integers(0, min(2, len(emissions) - n_fin)))
@@ -226,6 +235,10 @@ def execute(case):
     sep = case.get('sep')
     if sep:
         program['spec']['sep'] = sep
+    if case.get('strict_ports') and not sep:
+        # the spec class declares its output ports with an application-defined port class that refuses None
+        program['spec']['strict_ports'] = True
+        tree = pm.mark_strict(tree)
     run_case = {'program': program, 'schedule': []}
     model_tree = copy.deepcopy(tree)
     model_outputs = {}
